@@ -10,6 +10,14 @@ CHECKS = {
    text="Generated tree x sequence of 1-6 Root operations (all kinds, paths incl. '', NUL, '..', trailing slashes) run twice in fresh processes, with openat2 available and with openat2 answering ENOSYS; step-by-step differential comparison of Ok/Err, error kind, errno, returned object, type, F_GETFL status bits, FD_CLOEXEC, link bodies, and of the final path-projected tree. Search, not proof.",
    note="Backend selection by seccomp ENOSYS on the library thread (verified per case by a probe); differences must reproduce in 4 runs because openat2 fails spuriously under system-wide mount/rename activity; >40 traversals and flag sets the kernel rejects are outside the domain; tmpfs only.",
    technique="property-based differential testing (proptest) across two seccomp-selected kernel configurations"),
+ "C05": dict(level="exploration", ref="DESIGN.md §3 C05, §2.6",
+   text="Every system call the library thread issues inside generated calls (all operations, Rust and C API, six kernel configurations, cold start) is reported by a seccomp user-notification supervisor with what its dirfd refers to, and judged by an explicit discipline predicate (single component, never followed, fixed RESOLVE masks, literal white-list for AT_FDCWD/absolute shapes, close-on-exec requested and observed, O_NOCTTY, no legacy syscalls). Covers the executions generated, not all executions.",
+   note="Sees only syscalls in the filter table (all path-taking and fd-creating calls incl. legacy spellings); dirfd classification is the supervisor's fstat/fstatfs at call time; white-list is literal and printed in evidence.",
+   technique="trace-invariant checking over generated workloads (proptest + seccomp user-notification observer)"),
+ "C11": dict(level="exploration", ref="DESIGN.md §3 C11",
+   text="Descriptor-table audit (fd -> identity, FD_CLOEXEC) by the supervisor thread before and after every generated call, success and error paths, Rust and C API, six kernel configurations: after = before + at most the returned close-on-exec descriptor; lent descriptors unchanged. The same judge runs inside the fault-injection and attacker drivers.",
+   note="Audits descriptor numbers < 128 at call boundaries; tolerates the library's single process-lifetime procfs root (ino 1, close-on-exec).",
+   technique="property-based testing (proptest) with a before/after descriptor-table invariant taken by a seccomp supervisor"),
 }
 NOT_YET = {}
 ALL = ["C%02d" % i for i in range(1, 19)]
